@@ -1,6 +1,7 @@
 (* P/Lru: executable model of anyio.functools.AsyncLRUCacheWrapper (functools.py:100-216 of the pinned tree).
    Callers are tasks; the actions are the atomic segments of __call__:
-     Call c a          lookup / install placeholder / expiry replacement / hit (move_to_end, optional checkpoint),
+     Call c a          lookup / install placeholder / expiry replacement (+ move_to_end) / hit (move_to_end, optional
+                       checkpoint),
                        `async with lock` up to its first suspension; on the uncontended fast path also the
                        re-read of the entry and the miss bookkeeping up to the call of the wrapped function
      Resume c          the wake-up of blocked caller c runs: lock acquired -> re-read (KeyError possible) -> miss
@@ -243,7 +244,8 @@ Definition step (cf : cfg) (s : st) (o : op) : st * res :=
                 let s1 := set_flags s (f_inflight s) (orb (f_waited s) (waited cf s k)) in
                 let s2 := set_counts s1 (hits s1) (misses s1) (currsize s1 - 1)%Z in
                 let s3 := new_lock cf s2 k in
-                let s4 := set_dict s3 (dset_in k (EPlace l) (dict s3)) in
+                (* cache_entry[key] = placeholder; cache_entry.move_to_end(key)  (the recomputation is a use) *)
+                let s4 := bump_clk (set_dict s3 (dmove k (clk s3) (dset_in k (EPlace l) (dict s3)))) in
                 acquire cf s4 c k l
               else
                 let s1 := set_counts s (S (hits s)) (misses s) (currsize s) in
